@@ -61,6 +61,8 @@ def run_family(rep: vlib.Report, cfgs: List[dict], twins: List[dict], *, functio
         if len(samples) < 6 and r['paths']:
             samples.append({'config': r['cfg'], 'joint_paths': r['paths'], 'outcomes': r['outcomes'],
                             'queries': st['queries']})
+    slow = sorted(((r.get('wall_s', 0), str(r.get('cfg'))[:300]) for r in results if 'harness_error' not in r), reverse=True)[:5]
+    rep.coverage['slowest_configs'] = slow
     twin_report = []
     for cfg, r in zip(twins, tw_results):
         if 'harness_error' in r:
